@@ -180,6 +180,43 @@ def observe_doc(ctx, text, info, tree, hists):
                          f"{a!r};{b!r} gives {ab2!r} but the other order gives {ba2!r}")
 
 
+    # 5. a name bound both by the innermost let layer and by the set: `set @k A` and `set k B` address
+    #    different bindings, so they commute, and `rm @k` followed by `set @k` of the old value restores the tree
+    try:
+        chain = cstread.let_chain(text)
+    except cstread.Duplicate:
+        chain = None
+    from .c09 import adjacent_layers
+
+    if chain and cstread.find_target(cstread.ts_parse(text)) is not None and (adjacent_layers(text) or 0) >= 1:
+        # (only layers directly around the set are addressable; without one, `@k` naming an existing binding
+        # of the set edits that binding — documented)
+        inner = cstread.plain(chain[-1])
+        both = [k for k in inner if isinstance(k, str) and k in tree and not isinstance(inner[k], (dict, list, tuple))
+                and not isinstance(tree[k], (dict, list, tuple)) and k.isidentifier()
+                and not is_ident_leaf(inner[k]) and not is_ident_leaf(tree[k])]
+        for k in both[:2]:
+            a, b = ("set", "@" + k, '"A"'), ("set", k, '"B"')
+            ab = try_apply(try_apply(text, a)[0], b)[0] if try_apply(text, a)[0] else None
+            ba = try_apply(try_apply(text, b)[0], a)[0] if try_apply(text, b)[0] else None
+            if ab is not None and ba is not None and ab != ba:
+                ctx.fail({"clause": "commute", **key0, "scoped": True}, {"doc": text, "ops": [list(a), list(b)], "ab": ab, "ba": ba},
+                         f"{a!r};{b!r} gives {ab!r} but the other order gives {ba!r}")
+            old = inner[k]
+            t1, _ = try_apply(text, ("rm", "@" + k))
+            if t1 is not None and len(inner) > 1:
+                t2, e2 = try_apply(t1, ("set", "@" + k, old))
+                ch2 = None
+                try:
+                    ch2 = cstread.let_chain(t2) if t2 else None
+                except cstread.Duplicate:
+                    pass
+                if t2 is None or ch2 is None or cstread.plain(ch2[-1]) != inner or ep.safe_tree(t2) != tree:
+                    ctx.fail({"clause": "rm-set-restores", **key0, "scoped": True},
+                             {"doc": text, "ops": [["rm", "@" + k], ["set", "@" + k, old]], "output": t2},
+                             f"rm @{k} then set @{k} {old!r} on {text!r} does not restore the layer and the set: {t2!r} ({e2})")
+
+
 def closing_comments(text: str) -> bool:
     """does the target set end in own-line comments (between its last item and `}`)?"""
     tgt = cstread.find_target(cstread.ts_parse(text))
